@@ -522,9 +522,12 @@ def set_to_seq(I, v, why):
     res = c.fresh(f"{why}_of_set", z3.SeqSort(v.ty.elem.sort()))
     x = z3.Const("enum_x", v.ty.elem.sort())
     c.assume(z3.ForAll([x], z3.Contains(res, z3.Unit(x)) == z3.Select(v.t, x)))
-    # the same fact in index form (a consequence; saves the solver the nth => contains step)
-    j = z3.Int(f"{why}_enum_j")
-    c.assume(z3.ForAll([j], z3.Implies(z3.And(j >= 0, j < z3.Length(res)), z3.Select(v.t, res[j]))))
+    if getattr(I, "accumulate_rules", False):
+        # the same fact in index form (a consequence; saves the solver the nth => contains step).  Only for
+        # targets that ask for it: every extra quantified assumption makes `sat` answers (needed to
+        # report a refutation with a model) harder to obtain
+        j = z3.Int(f"{why}_enum_j")
+        c.assume(z3.ForAll([j], z3.Implies(z3.And(j >= 0, j < z3.Length(res)), z3.Select(v.t, res[j]))))
     return ZVal(TSeq(v.ty.elem), Cell(res))
 
 
